@@ -105,6 +105,12 @@ func TestC05(t *testing.T) {
 	col := ev.Get()
 	stored := func(path string) {
 		// a stored case is either a verdict case (single member, empty script) or a behaviour case
+		if payloadHas(t, path, "config") { // a verdict case stored as the configuration itself
+			var cc cfgCase
+			loadRegress(t, path, &cc)
+			verdictEvalAndClean(t, cc)
+			return
+		}
 		var rc behCase
 		loadRegress(t, path, &rc)
 		if len(rc.Members) == 1 && len(rc.Members[0].Script.Ops) == 0 && len(rc.Members[0].Files) == 1 {
@@ -184,11 +190,15 @@ func TestC05(t *testing.T) {
 					// the same structure with look-alikes that are no dependencies (parameters and tags named like the services)
 					g.Decoys, g.Place = true, 1+sc%2
 					verdict(t, g, fmt.Sprintf("exh:n=%d:look-alike-names", n))
+					// and with every service that has no references and no tags declared as a placeholder (todo: true) that keeps its scope
+					g = gen.EdgeGraph(n, edges, scopes)
+					g.TodoSinks = true
+					verdict(t, g, fmt.Sprintf("exh:n=%d:todo-sinks", n))
 				}
 			}
 		}
 	}
-	col.Exhaustive("every acyclic dependency graph on 2 and on 3 services x one edge kind of {argument, field, call argument, !tagged through a tag, decorator-on-tag with a dependency} x every assignment of {unset, shared, contextual, non_shared}, each also with look-alike names (a parameter named like every service referenced by every service, every service carrying a tag named like another service) and packed argument lists")
+	col.Exhaustive("every acyclic dependency graph on 2 and on 3 services x one edge kind of {argument, field, call argument, !tagged through a tag, decorator-on-tag with a dependency} x every assignment of {unset, shared, contextual, non_shared}, each also with look-alike names (a parameter named like every service referenced by every service, every service carrying a tag named like another service) and packed argument lists, and with the services that reference nothing declared as placeholders (todo: true) keeping their scope")
 	if ev.Thorough() {
 		// n = 3 with mixed edge kinds, n = 4 with at most 5 edges: sampled by rapid
 		setRapidChecks(4000)
@@ -208,6 +218,7 @@ func TestC05(t *testing.T) {
 			}
 			g := gen.EdgeGraph(n, edges, scopes)
 			g.Decoys, g.Place = rapid.Bool().Draw(rt, "decoys"), rapid.IntRange(0, 2).Draw(rt, "place")
+			g.TodoSinks = rapid.IntRange(0, 2).Draw(rt, "todosinks") == 0
 			verdict(rt, g, "random:mixed-kinds")
 		})
 	}
